@@ -150,6 +150,10 @@ def run(repo, rep):
                      'consume exactly one depth level' % (f.name, src(val), k, src(ctxe)))
     n += ctxmodel.construction_sites(repo, rep, 'C11.b', 'the remaining depth must be derived level by level')
     rep.floor('C11.b', n, 9)
+    # C11.d: the depth a container is cut at depends on where it occurs, not on where it was printed first (interpreted wrapper
+    # model: the same container at two nesting levels with the cut between them)
+    from . import wrapper_model
+    rep.floor('C11.d', wrapper_model.run(repo, rep, 'C11'), 4)
 
     # ---------------------------------------------------------------- C11.c
     n = 0
